@@ -122,7 +122,11 @@ func File(name string, src []byte, opt Options, st *Stats) ([]byte, error) {
 	for _, imp := range f.Imports {
 		p, _ := strconv.Unquote(imp.Path.Value)
 		if p == "sync/atomic" {
-			r.fail(imp.Pos(), "sync/atomic is not modelled by the scheduler")
+			// atomic operations: the same API from the scheduler's shim package (each operation is a scheduling point)
+			imp.Path.Value = strconv.Quote(opt.VschedImport + "/vatomic")
+			if imp.Name == nil {
+				imp.Name = ast.NewIdent("atomic")
+			}
 		}
 	}
 	r.collectChans(f)
